@@ -4,6 +4,7 @@
 # that is asked for a property-breaking change.  Nothing from /verif is copied there.
 import sys, os, json, subprocess
 pid = sys.argv[1].upper(); suf = sys.argv[2] if len(sys.argv) > 2 else ''
+hint = sys.argv[3] if len(sys.argv) > 3 else ''
 here = os.path.dirname(os.path.dirname(os.path.abspath(__file__)))
 p = [json.loads(l) for l in open(os.path.join(here, 'properties.jsonl')) if json.loads(l)['id'] == pid][0]
 d = '/tmp/seed/%s%s' % (pid, suf)
@@ -32,6 +33,7 @@ The change must look like something a maintainer could plausibly commit (a refac
 that any use would expose at once.  Prefer a change that needs something specific to manifest: an unusual input
 or boundary value, a particular dimension or parameter combination, a multi-step sequence of operations, a
 particular interleaving or fault point, or two cooperating sites that each look fine alone.
+{hint}
 
 Also write a demonstration: a small stand-alone C++ (or C) program `seed/demo.cpp` that links against the freshly
 built library (`libtfhe-spqlios-fma.so`, or another back-end if that is the point) and exits 0 on the ORIGINAL
@@ -58,6 +60,6 @@ Key generation for the default parameter set takes about 1 s, one bootstrapped g
 When finished: leave the source change applied in the worktree is NOT needed - save `patch.diff`, then run
 `git checkout -- src` so that the worktree is clean again, and delete your build directories (`_b_*`) to save disk.
 Reply with a short summary: what you changed, why the tests still pass, what is needed for it to manifest.
-'''.format(d=d, pid=pid)
+'''.format(d=d, pid=pid, hint=hint)
 open(os.path.join(d, 'TASK.md'), 'w').write(task)
 print(d)
